@@ -40,6 +40,8 @@ FAULTS = {
                            'lui x8, NOCONST', 'c.li x8, NOCONST', 'dw %position(START, NOCONST)'],
     'malformed_expression': ['addi x1, x1, 1 +', 'K2 = * 2', 'K2 = (1', 'K2 = 1)', 'K2 = 1 2', "K2 = 'ab'", "K2 = '\\'", 'li x1, 1 +', 'dw (1', 'lw x1, x2, (1',
                              'db 1 +* 2', 'K2 = 5 5', 'addi x8, x8, )', 'pack <I ((3)', 'sw x1, x2, 4 4', 'li x5, 0x', 'K2 = 0b12', 'dh 12ab', 'lui x5, %hi(', 'li x5, %hi((1)'],
+    'expression_evaluation': ['K2 = 1 << -1', 'addi x1, x1, 1 << -1', 'li x5, 1 << (K1 - 20)', 'dw 1 >> -2', 'K2 = 7 // 0', 'db 7 % 0', 'lui x5, 1 << (K1 - 13)',
+                              'K2 = K1 // (K1 - 12)', 'sw x1, x2, 4 % 0', 'pack <I 1 << -4'],
     'non_integer': ['K2 = 1.5', 'K2 = 4 / 2', 'K2 = "s"', 'addi x1, x1, 1.5', 'dw 2.0', 'li x5, 1e3', 'db 3 / 1', 'K2 = None', 'lw x8, 0.0(x8)', 'dh [1]'],
     'error_directive': ['error this board is not supported', '  error indented message # with hash', 'error (paren, comma', 'error x'],
     'missing_include': ['include nosuch_file.asm', 'include "nosuch dir/f.asm"', 'include_bytes nosuch.bin', 'include'],
@@ -123,15 +125,16 @@ def plant_cli(asm, acc, fault_class, fault, pos, depth, compress):
         if r.returncode == 0:
             acc['ctr']['planted_but_accepted'] += 1
             return
-        want = 'File "%s", line %d' % (os.path.join(root, names[depth]), pos + 1)
-        alt = 'File "%s", line %d' % (os.path.realpath(os.path.join(root, names[depth])), pos + 1)
+        import re
+        fname = names[depth]
         probs = []
         if 'Traceback' in r.stderr:
             probs.append('traceback on stderr (%s)' % r.stderr.strip().splitlines()[-1][:100])
         if r.returncode != 1:
             probs.append('exit status %d' % r.returncode)
-        if want not in r.stderr and alt not in r.stderr:
-            probs.append('stderr does not name %s' % want.replace(root, '<dir>'))
+        # the message must name the file and the 1-based line number (format not prescribed by the property)
+        if fname not in r.stderr or not re.search(r'(?<![0-9])%d(?![0-9])' % (pos + 1), r.stderr.replace(root, '')):
+            probs.append('stderr does not name %s line %d' % (fname, pos + 1))
         if probs:
             core.add_viol(acc, 'CLI with planted `%s` (%s, include depth %d, compress=%s): %s' % (fault, fault_class, depth, compress, '; '.join(probs)), case,
                           {'stderr': r.stderr[-400:]})
@@ -168,7 +171,7 @@ def run_shard(sh, deadline):
 
 # planted lines that would emit an odd number of bytes if accepted: planted only where no pc-relative reference of the base
 # program crosses them (start / end), so that the plant stays the *only* faulty line
-ODD = {'db 256', 'bytes 1 2 256', 'pack <B 256', 'db NOCONST', 'db 1 +* 2', 'db 3 / 1', 'include_bytes nosuch.bin'}
+ODD = {'db 7 % 0', 'db 256', 'bytes 1 2 256', 'pack <B 256', 'db NOCONST', 'db 1 +* 2', 'db 3 / 1', 'include_bytes nosuch.bin'}
 
 
 def plan(tier, seed):
